@@ -74,7 +74,7 @@ def udf_reader(l0: int, l1: int, l2: int) -> bool:
     if h.P.get('fixed'):
         l1, l2 = h.P['fixed']
     iso = skel.new_iso(cfg)
-    SKELETONS[h.P.get('sk', 'sk1')](iso, [l0, l1, l2], cfg)
+    built = SKELETONS[h.P.get('sk', 'sk1')](iso, [l0, l1, l2], cfg)
     out = h.OutFP()
     iso.write_fp(out, blocksize=1 << 40)
     img = h.ImageFP(out)
@@ -86,7 +86,7 @@ def udf_reader(l0: int, l1: int, l2: int) -> bool:
     def rd_sym(pos, n):
         # a descriptor written at a symbolic position: the only candidates are the writer's own symbolic-position metadata
         # writes; the bytes are those of the candidate whose start EQUALS pos (an equation of the result, no path fork)
-        cands = [(p, d) for (p, d) in img.sym_chunks if len(d) >= n]
+        cands = [(p, d) for (p, d) in img.sym_chunks if len(d) == n] or [(p, d) for (p, d) in img.sym_chunks if len(d) >= n]
         if not cands:
             # the writer's position was concrete on this path although the volume size is a symbolic term: an ordinary read
             return rd(pos, n), True
@@ -121,6 +121,15 @@ def udf_reader(l0: int, l1: int, l2: int) -> bool:
             ok = ok & (t[2] == rec.get_data_length())
             if bool(rec.get_data_length() != 0) and rec.inode is not None and t[4] == 5:
                 ok = ok & (info['part_start'] + t[3] == rec.inode.extent_location())
+    # symbolic links: the recorded path components decode to the target the user passed
+    want = {'/'.join([''] + [x.encode('latin-1').hex() for x in p.strip('/').split('/')]): t for p, t in (built.get('udf_symlinks') or {}).items()}
+    if sorted(want) != sorted(info['symlinks']):
+        LAST_DETAIL = 'symlink set mismatch: reader %r vs built %r' % (sorted(info['symlinks']), sorted(want))
+        return False
+    for p, t in want.items():
+        if decode_symlink(info['symlinks'][p]) != [ord(ch) for ch in t]:
+            LAST_DETAIL = 'symlink %r does not decode to %r' % (p, t)
+            return False
     # the partition covers everything it describes and ends where the volume's last anchor begins
     for b in info['blocks']:
         ok = ok & (b < info['part_len'])
